@@ -23,6 +23,7 @@ def smarts_atoms(s):
     maps = []
     unmapped = 0
     problems = []
+    order = []  # (token text, map number or None) in order of appearance
     i = 0
     depth = 0
     closures = {}
@@ -42,6 +43,7 @@ def smarts_atoms(s):
                 maps.append(int(m.group(1)))
             else:
                 unmapped += 1
+            order.append((tok, int(m.group(1)) if m else None))
             n_atoms += 1
             i = j + 1
             continue
@@ -65,6 +67,7 @@ def smarts_atoms(s):
             if m:
                 unmapped += 1
                 n_atoms += 1
+                order.append((m.group(0), None))
                 i = m.end()
                 continue
         i += 1
@@ -77,7 +80,29 @@ def smarts_atoms(s):
         problems.append('duplicate atom map')
     start = max(maps, default=0) + 1
     numbers = set(maps) | set(range(start, start + unmapped))
+    nxt = start
+    TOKENS.clear()
+    for tok, mp in order:
+        if mp is None:
+            TOKENS[nxt] = tok
+            nxt += 1
+        else:
+            TOKENS[mp] = tok
     return numbers, problems
+
+
+TOKENS = {}  # atom number -> token text of the pattern scanned last (side table of smarts_atoms)
+
+
+def pattern_charge(tok):
+    """charge a pattern atom token demands: int, or None when the atom matches any charge (AnyMetal `M`)"""
+    head = re.split(r'[;:]', tok)[0]
+    if head == 'M':
+        return None
+    m = re.search(r'(?:^|;)([+-])(\d?)(?=;|:|$)', tok) or re.search(r'([+-])(\d?)$', re.sub(r':\d+$', '', tok))
+    if not m:
+        return 0
+    return (1 if m.group(1) == '+' else -1) * (int(m.group(2)) if m.group(2) else 1)
 
 
 def iter_rules(func):
@@ -170,3 +195,71 @@ def rule_tables_applicable(ck, repo, R):
                           f'charge rule `{q}` (fix={fix}) needs mapped atoms {sorted(need)}; pattern has {sorted(numbers)} {problems}', file=m.relpath, line=st.lineno, func=fn)
     ck.require(n2 >= 15, f'only {n2} charge canonisation rules recognised')
     ck.floor(R, 115)
+
+
+def rule_patch_order_atomic(ck, repo, R):
+    """C14: the rule engine applies the charge patches of one match atom by atom and, when a patch would exceed +4, undoes only THAT atom and
+    abandons the match: atoms patched earlier in the same match stay patched. A match is therefore all-or-nothing only if, in the order the
+    engine walks atom_fix, every atom whose charge is raised comes before any atom that is changed at all. The walk order is read from the
+    loop header (plain .items() = the order written in the rule; sorted(..) = by atom number) and the condition is evaluated on every rule."""
+    ck.rule(R, 'in Standardize.__standardize the overflow branch (`charge > 4`) undoes only the current atom; so for every built-in rule, in the '
+               'order the loop header walks atom_fix (insertion order for `.items()`, key order for `sorted(.items())`), no atom whose charge is '
+               'raised may come after an atom that is changed: otherwise an omitted match still moves net charge')
+    f = repo.func('chython.algorithms.standardize.molecule:Standardize.__standardize')
+    loops = [n for n in ast.walk(f.node) if isinstance(n, ast.For) and 'atom_fix' in src(n.iter)]
+    ck.require(len(loops) == 1, '__standardize: loop over atom_fix not found')
+    lp = loops[0]
+    it = lp.iter
+    if src(it) == 'atom_fix.items()':
+        order = 'insertion'
+    elif isinstance(it, ast.Call) and src(it.func) == 'sorted' and len(it.args) == 1 and src(it.args[0]) == 'atom_fix.items()' and not it.keywords:
+        order = 'key'
+    elif isinstance(it, ast.Call) and src(it.func) == 'reversed' and len(it.args) == 1 and src(it.args[0]) in ('atom_fix.items()', 'list(atom_fix.items())'):
+        order = 'reversed'
+    else:
+        raise AnalysisError(f'__standardize: walk order of `{src(it)}` not understood')
+    # overflow branch: does it undo more than the current atom?
+    over = [n for n in ast.walk(lp) if isinstance(n, ast.If) and any(isinstance(b, ast.Break) for b in n.body)]
+    ck.require(len(over) == 1, '__standardize: overflow branch (break) not found in the atom_fix loop')
+    full_rollback = any(isinstance(n, (ast.For, ast.While)) for b in over[0].body for n in ast.walk(b))
+    total = bad = 0
+    for mn, (mode, fnames) in RULE_MODULES.items():
+        if mode != 'delta':
+            continue
+        m = repo.module(mn)
+        for fn in fnames:
+            g = m.functions.get(fn)
+            ck.require(g is not None, f'{mn}.{fn} vanished')
+            for cur, names, line in iter_rules(g):
+                if 'atom_fix' not in cur or 'atom_fix' not in names:
+                    continue
+                try:
+                    af = ast.literal_eval(cur['atom_fix'])
+                except Exception:
+                    raise AnalysisError(f'{m.relpath}:{line}: atom_fix is not a literal')
+                items = list(af.items())
+                if order == 'key':
+                    items = sorted(items)
+                elif order == 'reversed':
+                    items = items[::-1]
+                total += 1
+                late = None
+                changed_before = False
+                smarts_atoms(cur['q'][0])
+                toks = dict(TOKENS)
+                for n, v in items:
+                    ch, ir = v if isinstance(v, tuple) else (v, None)
+                    # can this patch overflow? only if the pattern atom admits a charge c with c + ch > 4 (query atoms match the charge exactly; `M` matches any)
+                    c0 = pattern_charge(toks.get(n, 'M'))
+                    can_overflow = ch > 0 and (c0 is None or c0 + ch > 4)
+                    if can_overflow and changed_before:
+                        late = n
+                    if ch or ir is not None:
+                        changed_before = True
+                q = cur['q'][0]
+                ck.decide(full_rollback or late is None, R, f'{mn.rsplit(".", 1)[1]}.{fn}:{q}', [k for k, _ in items],
+                          f'rule `{q}`: walking atom_fix as `{src(it)}` ({order} order {[k for k, _ in items]}) raises the charge of pattern atom {late} after another atom '
+                          f'was already patched; when that atom is at +4 the match is abandoned with the earlier patch left in place: net charge changes although the log says '
+                          f'"changes omitted"', file=f.file, line=lp.lineno, func=f.qualname, construct=src(it))
+    ck.count(f'{R}: rules walked', total)
+    ck.require(total >= 60, f'only {total} delta rules recognised')
